@@ -40,7 +40,7 @@ def ladder_cases(full, kmax=3):
     collision_worlds) and every list of 1..kmax distinct peaks
     from the world's five-point grid, ascending and descending"""
     from mc.props import c15
-    dups = list(c15.dup_worlds())
+    dups = list(c15.dup_worlds()) + list(c15.shared_label_dup_worlds())
     for name, ref, q, grid in list(c15.ladder_worlds(full)) + list(c15.collision_worlds()) + (dups if full else dups[::3]):
         for k in range(1, kmax + 1):
             for c in itertools.combinations(grid, k):
